@@ -98,25 +98,27 @@ def run_reference(job):
     return out
 
 
-def _worker(fn, inq, outq):
-    import os
-
+def _worker(fn, conn):
     while True:
-        item = inq.get()
+        try:
+            item = conn.recv()
+        except (EOFError, OSError):
+            return
         if item is None:
             return
         i, job = item
-        outq.put(("start", i, os.getpid()))
         try:
             r = fn(job)
         except Exception as e:  # noqa: BLE001
             r = {"load": "err", "load_msg": f"worker exception: {e}", "runs": [], "names": []}
-        outq.put(("done", i, r))
+        conn.send((i, r))
 
 
 class Pool:
-    """Worker processes that survive a crashing job: the job a worker was running when it died is reported as
-    ``{"load": "crash"}``, a fresh worker takes over, all other jobs complete normally."""
+    """Worker processes, one duplex pipe each (synchronous sends), that survive a crashing job: the job a worker was
+    given when it died is reported as ``{"load": "crash"}``, a fresh worker takes over, all other jobs complete."""
+
+    JOB_TIMEOUT = 300.0
 
     def __init__(self, workers: int):
         self.workers = workers
@@ -124,59 +126,79 @@ class Pool:
 
     def map(self, fn, jobs):
         import multiprocessing as mp
-        import queue
+        import time
+        from multiprocessing.connection import wait
 
         if not jobs:
             return []
         ctx = mp.get_context("fork")
-        inq, outq = ctx.Queue(), ctx.Queue()
-        for i, j in enumerate(jobs):
-            inq.put((i, j))
-        n_workers = min(self.workers, len(jobs))
-        procs = {}
+        results = [None] * len(jobs)
+        state = {}  # parent conn -> [process, current job index | None, start time]
+        nxt = [0]
+        done = [0]
+
+        def assign(conn):
+            if nxt[0] < len(jobs):
+                i = nxt[0]
+                nxt[0] += 1
+                state[conn][1], state[conn][2] = i, time.time()
+                conn.send((i, jobs[i]))
+            else:
+                state[conn][1] = None
+                try:
+                    conn.send(None)
+                except OSError:
+                    pass
 
         def spawn():
-            p = ctx.Process(target=_worker, args=(fn, inq, outq), daemon=True)
+            a, b = ctx.Pipe(duplex=True)
+            p = ctx.Process(target=_worker, args=(fn, b), daemon=True)
             p.start()
-            procs[p.pid] = p
-        for _ in range(n_workers):
-            spawn()
-        results = [None] * len(jobs)
-        running = {}  # pid -> job index
-        done = 0
-        idle_rounds = 0
-        while done < len(jobs):
+            b.close()
+            state[a] = [p, None, time.time()]
+            assign(a)
+
+        def lost(conn, why):
+            p, i, _ = state.pop(conn)
             try:
-                kind, i, payload = outq.get(timeout=0.5)
-                idle_rounds = 0
-                if kind == "start":
-                    running[payload] = i
-                else:
-                    if results[i] is None:
-                        results[i] = payload
-                        done += 1
-                    for pid, j in list(running.items()):
-                        if j == i:
-                            del running[pid]
-                continue
-            except queue.Empty:
-                idle_rounds += 1
-            for pid, p in list(procs.items()):
-                if not p.is_alive():
-                    del procs[pid]
-                    i = running.pop(pid, None)
-                    if i is not None and results[i] is None:
-                        self.crashes += 1
-                        results[i] = {"load": "crash", "load_msg": "the runtime aborted the process", "runs": [], "names": []}
-                        done += 1
-                    if done < len(jobs):
-                        spawn()
-            if idle_rounds > 1200:  # 10 minutes without any progress
+                conn.close()
+            except OSError:
+                pass
+            if p.is_alive():
+                p.terminate()
+            p.join(timeout=2)
+            if i is not None and results[i] is None:
+                self.crashes += 1
+                results[i] = {"load": "crash", "load_msg": why, "runs": [], "names": []}
+                done[0] += 1
+            if nxt[0] < len(jobs):
+                spawn()
+        for _ in range(min(self.workers, len(jobs))):
+            spawn()
+        while done[0] < len(jobs) and state:
+            busy = [c for c, st in state.items() if st[1] is not None]
+            if not busy:
                 break
-        for _ in procs:
-            inq.put(None)
-        for p in procs.values():
+            for conn in wait(busy, timeout=1.0):
+                try:
+                    i, r = conn.recv()
+                except (EOFError, OSError):
+                    lost(conn, "the runtime aborted the process")
+                    continue
+                if results[i] is None:
+                    results[i] = r
+                    done[0] += 1
+                assign(conn)
+            now = time.time()
+            for conn, st in list(state.items()):
+                if st[1] is not None and now - st[2] > self.JOB_TIMEOUT:
+                    lost(conn, "the runtime did not finish within the time limit")
+        for conn, (p, _, _) in list(state.items()):
+            try:
+                conn.close()
+            except OSError:
+                pass
             p.join(timeout=2)
             if p.is_alive():
                 p.terminate()
-        return [r if r is not None else {"load": "err", "load_msg": "no result (timeout)", "runs": [], "names": []} for r in results]
+        return [r if r is not None else {"load": "err", "load_msg": "no result", "runs": [], "names": []} for r in results]
